@@ -123,6 +123,10 @@ fn main() {
             }
             _ => usage(),
         },
+        Some("min") if args.len() >= 6 => match (engines::lookup(&args[2]), Tier::parse(&args[3])) {
+            (Some(e), Some(t)) => driver::minimise_index(e, t, args[4].parse().unwrap_or(0), &args[5]),
+            _ => usage(),
+        },
         Some("list") => {
             for e in engines::all() {
                 println!("{}", e.id());
